@@ -78,7 +78,7 @@ META = {
         "sections": ["Tables.QuotedQualifierNames", "Tables.LiteralQualifierNames", "Tables.ToggleQualifierNames", "Arith.isLeapYear", "Arith.toOriginLength", "Arith.fromOriginLength", "Arith.Abs"],
         "rule": "generated records of the writable domain (16 residue counts around the 10/60-residue edges then random < 400, 0..8 features with random INSDC locations built through the API, quoted/literal/toggle/unknown-name/multi-line qualifiers, every header field incl. DBLINK, multi-line DEFINITION/COMMENT/reference subfields, extra fields, CONTIG-only records), 16 edge classes (one aspect at the edge of the domain each), the four corpus files, streams of 2..5 records, and records reached from those by 1..5 random insert/embed/delete/erase/slice/rotate/reverse/complement/concat operations: GenBank.String (= model gb_show), then the reader (= model scan_genbank), then the writer again; date_show/as_date over a sweep of years x 12 months; wrap.Space on 300 strings. Oracle: one record read back, clean end, equal projected fields/table/residues, byte-identical second write, independent framing of streams.",
         "assumptions": ["projected observables: the slice REGION is compared as the accession line the writer prints; a toggle qualifier is compared by presence (the writer prints no value for it)",
-                        "theorems: the whole LOCUS line (name, length, molecule, topology, division, date) and every feature key line (key, location) read back as written; field bodies, KEYWORDS and qualifier values round-trip; the whole-record round trip is decided by correspondence of writer and reader with the model on every generated/corpus/pipeline record plus the oracle",
+                        "theorems: the whole LOCUS line (name, length, molecule, topology, division, date) every feature key line and the whole feature table with quoted qualifiers read back as written (table_parser (table_show ff) = ff); field bodies, KEYWORDS and qualifier values round-trip; the whole-record round trip is decided by correspondence of writer and reader with the model on every generated/corpus/pipeline record plus the oracle",
                         "the qualifier-name registries are process-global; each case starts from the registries as initialised (the harness restores them), the model threads them through a scan"],
     },
     "C07": {
